@@ -26,6 +26,16 @@ def progress(name, **opts):
             f.flush(); os.fsync(f.fileno())
 
 
+_RS = [12345]
+
+
+def det(sim):
+    """the library seeds sim.rand_seed from clock and pid; the order in which the collisions of one search are resolved depends on
+    it.  Every simulation built here gets a fixed value (a history object and its fresh counterpart the same one)."""
+    sim.rand_seed = _RS[0]
+    return sim
+
+
 FLOOR = 3e-12     # errors below this are rounding dominated: not judged
 MARGIN = 0.75
 
@@ -36,7 +46,7 @@ def make_system(seed, tp=False, G=1.0, tpcfg=None):
                         mode 'B' = star + planet 1 active (N_active = 2), planet 2 and an outer body are test particles.
     type 0: test particles are massless; type 1: they keep a non-zero mass and act back on the active bodies."""
     rng = random.Random(seed)
-    sim = rebound.Simulation()
+    sim = det(rebound.Simulation())
     sim.G = G
     sim.add(m=1.0)
     a1 = rng.uniform(0.9, 1.1)
@@ -445,12 +455,12 @@ def bs_option_checks(seed, tier):
     # ---- TRACE with its BS pericentre modes on an eccentric orbit (the pericentre passage is handed to BS)
     def trace_run(peri_mode, max_dt, dt):
         progress("bs-options/trace", system_seed=seed, peri_mode=peri_mode, max_dt=max_dt, dt=dt)
-        sim = rebound.Simulation(); sim.add(m=1.0); sim.add(m=1e-4, a=1.0, e=0.92, f=-2.2); sim.add(m=1e-4, a=4.0, e=0.05, f=1.0); sim.move_to_com()
+        sim = det(rebound.Simulation()); sim.add(m=1.0); sim.add(m=1e-4, a=1.0, e=0.92, f=-2.2); sim.add(m=1e-4, a=4.0, e=0.05, f=1.0); sim.move_to_com()
         sim.integrator = "trace"; sim.ri_trace.peri_mode = peri_mode; sim.dt = dt
         sim.ri_bs.max_dt = max_dt
         sim.integrate(3.0, exact_finish_time=1)
         return state(sim)
-    r3 = rebound.Simulation(); r3.add(m=1.0); r3.add(m=1e-4, a=1.0, e=0.92, f=-2.2); r3.add(m=1e-4, a=4.0, e=0.05, f=1.0); r3.move_to_com()
+    r3 = det(rebound.Simulation()); r3.add(m=1.0); r3.add(m=1e-4, a=1.0, e=0.92, f=-2.2); r3.add(m=1e-4, a=4.0, e=0.05, f=1.0); r3.move_to_com()
     r3.integrator = "ias15"; r3.integrate(3.0, exact_finish_time=1); ref3 = state(r3)
     for pm in (0, 1):
         b0 = err(trace_run(pm, 0.0, 0.02), ref3)
@@ -574,7 +584,7 @@ def history_checks(seed, tier):
     rng = random.Random(seed ^ 0x515)
     out = []
     def build():
-        sim = rebound.Simulation()
+        sim = det(rebound.Simulation())
         sim.add(m=1.0)
         a = 1.0
         for k in range(4):
@@ -583,7 +593,7 @@ def history_checks(seed, tier):
         sim.move_to_com()
         return sim
     def fresh_from(sim, pt, dt):
-        s2 = rebound.Simulation()
+        s2 = det(rebound.Simulation())
         s2.G = sim.G; s2.t = sim.t; s2.softening = sim.softening
         for p in sim.particles:
             s2.add(m=p.m, x=p.x, y=p.y, z=p.z, vx=p.vx, vy=p.vy, vz=p.vz, r=p.r, hash=p.hash)
@@ -620,8 +630,8 @@ def history_checks(seed, tier):
         ps = sim.particles
         dist = lambda p, q: math.sqrt((p.x - q.x) ** 2 + (p.y - q.y) ** 2 + (p.z - q.z) ** 2)
         d, i, j = min((dist(ps[i], ps[j]), i, j) for i in range(1, sim.N) for j in range(i + 1, sim.N))
-        rr = 0.5005 * d
-        if any(dist(ps[k], ps[m]) <= rr for k in (i, j) for m in range(sim.N) if m not in (i, j)):
+        rr = 0.55 * d            # a clear (not marginal) overlap of the chosen pair: 10% beyond touching
+        if any(dist(ps[k], ps[m]) <= 1.3 * rr for k in (i, j) for m in range(sim.N) if m not in (i, j)):      # and clearly nothing else
             raise RuntimeError("skip: no isolated pair")
         sim.collision = "direct"; sim.collision_resolve = "merge"
         ps[i].r = rr; ps[j].r = rr
@@ -721,9 +731,11 @@ def history_checks(seed, tier):
                     a.synchronize()
                     dta = a.dt if not adaptive else dt
                     b = fresh_from(a, pt, a.dt)
+                    a.rand_seed = b.rand_seed = 777
                     go(a, pt, 9, dta); go(b, pt, 9, dta)
                     d1 = diff(a, b)
                     c = fresh_from(a, pt, a.dt)
+                    a.rand_seed = c.rand_seed = 778
                     go(a, pt, 5, dta); go(c, pt, 5, dta)
                     d2 = diff(a, c)
                     tol = 1e-9 if adaptive else 1e-11
@@ -752,6 +764,7 @@ def history_checks(seed, tier):
                     a.synchronize()
                     act(a)
                     b = fresh_from(a, pt, a.dt)
+                    a.rand_seed = b.rand_seed = 777
                     ref = fresh_from(a, None, 0); ref.integrator = "ias15"
                     if adaptive:
                         a.integrate(a.t + 9 * dt, exact_finish_time=1); b.integrate(b.t + 9 * dt, exact_finish_time=1)
@@ -762,6 +775,7 @@ def history_checks(seed, tier):
                     n_after = a.N
                     # third leg: again against a fresh object built from the state reached (covers removals done by the collision)
                     c = fresh_from(a, pt, a.dt)
+                    a.rand_seed = c.rand_seed = 778
                     c.collision = "none"; a.collision = "none"
                     if adaptive:
                         a.integrate(a.t + 5 * dt, exact_finish_time=1); c.integrate(c.t + 5 * dt, exact_finish_time=1)
@@ -807,7 +821,7 @@ def corner_checks(seed, tier):
             # ---- N = 1: a free particle moves on a straight line, exactly
             progress("corner/N=1 free particle/" + fname, options=pt)
             try:
-                sim = rebound.Simulation(); sim.add(m=1.0, x=0.3, y=-0.2, z=0.1, vx=0.1, vy=0.2, vz=-0.05); configure(sim, pt)
+                sim = det(rebound.Simulation()); sim.add(m=1.0, x=0.3, y=-0.2, z=0.1, vx=0.1, vy=0.2, vz=-0.05); configure(sim, pt)
                 advance(sim, pt, 1.0, 20)
                 p = sim.particles[0]
                 e = max(abs(p.x - (0.3 + 0.1 * sim.t)), abs(p.y - (-0.2 + 0.2 * sim.t)), abs(p.z - (0.1 - 0.05 * sim.t)), abs(p.vx - 0.1), abs(sim.t - 1.0))
@@ -816,7 +830,7 @@ def corner_checks(seed, tier):
                 rec("N=1 free particle/" + fname, False, [float("nan")], exception=repr(ex_)[:120])
             # ---- N = 2 and variants of the 3-body system: convergence against IAS15 (relative to the inner semi-major axis)
             def variant(kind):
-                sim = rebound.Simulation()
+                sim = det(rebound.Simulation())
                 G, M, a1, scale_t = 1.0, 1.0, 1.0, 1.0
                 if kind == "G=4pi^2":
                     G = 4 * math.pi ** 2; scale_t = 1 / (2 * math.pi)
@@ -905,7 +919,7 @@ def corner_checks(seed, tier):
                         a.synchronize(); break
                     except Exception:
                         pass
-                b = rebound.Simulation(); b.G = a.G; b.t = a.t
+                b = det(rebound.Simulation()); b.G = a.G; b.t = a.t
                 for p in a.particles:
                     b.add(m=p.m, x=p.x, y=p.y, z=p.z, vx=p.vx, vy=p.vy, vz=p.vz)
                 configure(b, pt); b.dt = 0.02
@@ -921,6 +935,7 @@ def corner_checks(seed, tier):
 def main():
     seed = int(sys.argv[1]); tier = sys.argv[2]
     only = sys.argv[3] if len(sys.argv) > 3 else None
+    _RS[0] = 1 + seed % 1000003
     rng = random.Random(seed)
     sys_seeds = [rng.randrange(1 << 30) for _ in range(1 if tier == "quick" else 5)]
     T0 = 3.0
